@@ -365,6 +365,12 @@ func runC19(c *c19Case, scratch string, stats map[string]int64) (v *core.DriverV
 		return mkViolation(c, "counts", fmt.Sprintf("import reported %d stored and %d failed records; the reference decomposition has %d acceptable and %d failing records (%d in all)", oks, errs, len(ref.rows), ref.errs, ref.records)), "", ""
 	}
 	o, err := w.Observe(rs, "t")
+	if err != nil && strings.Contains(err.Error(), "cache is full") {
+		// same precondition exit as above, met by the observer query itself
+		stats["abandoned_cache_refused"]++
+		addStats(w)
+		return nil, "", w.HashString()
+	}
 	if err != nil {
 		return mkViolation(c, "select-error", "SELECT * after the import: "+err.Error()), "", ""
 	}
